@@ -362,3 +362,22 @@ PROPS["C05"] = {
          "checks": {"quick": 40, "thorough": 120}, "shards": {"quick": 4, "thorough": 16}, "timeout": {"quick": 900, "thorough": 5400}},
     ],
 }
+
+PROPS["C02"] = {
+    "level": "exploration",
+    "rule": ("Agreement: whole generated test suites in the deterministic fragment (no delays/timeouts/cancel/raw payloads/size directives): 1-8 cases per suite; per case a stream type, 0-4 requests (exactly 1 for unary/server-stream), request headers and response headers/trailers from non-reserved tokens (lower/mixed case, repeated values, comma and punctuation values, -bin names with base64 values), 0-4 response items of 0-3000 partly incompressible bytes, optional error (code 1-16, message unset/empty/UTF-8 with %, newlines, tabs, non-ASCII; 0-3 details incl. a RequestInfo detail), request payloads 0-3000 bytes; "
+             "written as YAML and run through the exported Run with no peer commands (reference client, reference server, gRPC client, gRPC server all in process) under a drawn config (HTTP/1.1 and/or h2c x 3 protocols x 2 codecs x identity + one drawn compression); oracle: Run returns (true, nil) - any FAILED permutation is a disagreement between the derived expectation and the reference peers. "
+             "Crash: unrestricted suites (any directive combination, missing names, unspecified stream types, request messages of the wrong type, unknown Any types, too many/too small expand directives, raw payloads in the wrong mode, duplicate names) through parseTestSuites + newTestCaseLibrary in all three modes: a panic is a violation, an error is fine; a native fuzz target does the same from raw YAML bytes seeded with the embedded corpus (thorough). "
+             "Non-trivial: a case with an error carrying details, >=2 responses, zero requests, bidi with #responses != #requests, or a repeated/mixed-case/-bin header."),
+    "assumptions": ["the two recorded findings (known_findings.json: full-duplex with fewer responses than requests and no error; full-duplex with >=2 requests, no responses and an error) are excluded from the generator by construction and counted; their minimal inputs are executed by the Known unit on every run",
+                    "TLS and HTTP/3 are covered by C01; here they would only multiply cost"],
+    "units": [
+        {"name": "C02Agreement", "pkg": CC, "test": "TestVerifC02Agreement", "kind": "rapid",
+         "checks": {"quick": 20, "thorough": 200}, "shards": {"quick": 4, "thorough": 16}, "timeout": {"quick": 900, "thorough": 5400}},
+        {"name": "C02Known", "pkg": CC, "test": "TestVerifC02Known", "kind": "enum"},
+        {"name": "C02Crash", "pkg": CC, "test": "TestVerifC02Crash", "kind": "rapid",
+         "checks": {"quick": 4000, "thorough": 100000}, "shards": {"quick": 2, "thorough": 8}},
+        {"name": "C02Fuzz", "pkg": CC, "test": "FuzzVerifC02Suite", "kind": "fuzz", "fuzz_target": "FuzzVerifC02Suite",
+         "only_tiers": ["thorough"], "fuzztime": {"thorough": "120s"}, "workers": 16, "timeout": {"thorough": 900}},
+    ],
+}
